@@ -29,9 +29,9 @@ C10OK(rec) ==
 C16OK(rec) == rec.fail => (C10OK(rec) /\ (rec.out = "ok" /\ HasFail(Norm(rec.ev)) => ToSt(rec.post) = ToSt(rec.pre)))
 VARIABLE i
 Judge(rec) ==
-    /\ (Level # 2 \/ C16OK(rec) \/ PrintT(<<"L2FAIL", "C16", rec.id>>))
-    /\ (Level # 2 \/ C10OK(rec) \/ PrintT(<<"L2FAIL", "C10", rec.id>>))
-    /\ (Level # 1 \/ StepOK(rec) \/ PrintT(<<"L1DRIFT", "str", rec.id>>))
+    /\ (IF Level # 2 \/ C16OK(rec) THEN TRUE ELSE PrintT(<<"L2FAIL", "C16", rec.id>>))
+    /\ (IF Level # 2 \/ C10OK(rec) THEN TRUE ELSE PrintT(<<"L2FAIL", "C10", rec.id>>))
+    /\ (IF Level # 1 \/ StepOK(rec) THEN TRUE ELSE PrintT(<<"L1DRIFT", "str", rec.id>>))
 TInit == i = 1
 TNext == i < Len(Recs) /\ i' = i + 1 /\ Judge(Recs[i + 1])
 TSpec == TInit /\ [][TNext]_i
